@@ -164,7 +164,7 @@ def parse(repo, mod, reader, text, sep_form):
     vfs = M.VFS(by_basename={"abstract.ts": text})
     ri = Interp(repo, M.make_externals(vfs), M.to_float, M.str_hook)
     try:
-        return ("ok", ri.call_function(mod, reader, ["abstract.ts"], {} if sep_form else {"return_separate_X_and_y": False}))
+        return ("ok", ri.call_entry(mod, reader, ["abstract.ts"], {} if sep_form else {"return_separate_X_and_y": False}))
     except Undecided as e:
         return ("undecided", str(e))
     except PyRaise as e:
@@ -201,7 +201,7 @@ def rule_roundtrip(ctx, repo):
         vfs = M.VFS()
         wi = Interp(repo, M.make_externals(vfs), M.to_float, M.str_hook)
         try:
-            wi.call_function(mod, writer, [M.PanelSym(cases, index=ROW_LABELS[:len(cases)]), "/out"], dict(kw))
+            wi.call_entry(mod, writer, [M.PanelSym(cases, index=ROW_LABELS[:len(cases)]), "/out"], dict(kw))
         except Undecided as e:
             undec.append(("R1", "writer", sc, str(e)))
             continue
@@ -215,7 +215,8 @@ def rule_roundtrip(ctx, repo):
             continue
         text = vfs.files[written[0]].text()
         ctx.count("writer_scenarios")
-        first = text.find(cases[0][0][:-1])  # stem of the first observation token (it may have been altered)
+        pos = [text.find(c[0][:-1]) for c in cases if c]  # stems of the observation tokens (they may have been altered / reordered)
+        first = min([p for p in pos if p >= 0] or [-1])
         cut = text.rfind("\n", 0, first) + 1 if first >= 0 else len(text)
         w_header, w_data = text[:cut], text[cut:]
         has_labels = labels is not None
@@ -308,26 +309,62 @@ def abstract_ts(prefix, n, length=3, labels=("c1", "c0", "c1", "c0")):
 def rule_loader(ctx, repo):
     """Evaluated under both fixed iteration orders of sets (the order of a set is unspecified: code whose result
     depends on it must fail under one of them)."""
-    for rev in (True, False):
-        _rule_loader(ctx, repo, rev)
-
-
-def _rule_loader(ctx, repo, set_reverse):
     mod = repo.module(DS)
-    fn = repo.func(DS, "_load_dataset")
+    entries = ["_load_dataset"]
+    for nm, node in mod.defs.items():
+        if isinstance(node, ast.FunctionDef) and nm != "_load_dataset" and any(
+                isinstance(c.func, ast.Name) and c.func.id == "_load_dataset" for c in astq.calls(node)):
+            entries.append(nm)  # public loaders: thin wrappers whose result the property observes
+    ctx.count("loader_entry_points", len(entries))
+    for entry in entries:
+        fn = mod.defs[entry]
+        iterates_set = entry == "_load_dataset" or any(isinstance(n, (ast.Set, ast.SetComp)) or (
+            isinstance(n, ast.Call) and isinstance(n.func, ast.Name) and n.func.id in ("set", "frozenset")) for n in ast.walk(fn))
+        for rev in ((True, False) if iterates_set else (True,)):
+            _rule_loader(ctx, repo, rev, entry)
+
+
+class _SplitFiles(dict):
+    """<anything>_TRAIN.ts / <anything>_TEST.ts -> the abstract training / test file (the data set's name is free)."""
+
+    def __init__(self, train, test):
+        dict.__init__(self)
+        self.train, self.test = train, test
+
+    def get(self, base, default=None):
+        if base.endswith("_TRAIN.ts"):
+            return self.train
+        if base.endswith("_TEST.ts"):
+            return self.test
+        return default
+
+
+def _rule_loader(ctx, repo, set_reverse, entry="_load_dataset"):
+    mod = repo.module(DS)
+    fn = repo.func(DS, entry)
     loc = ctx.loc(mod, fn)
     name = "abstractset"
+    params = astq.param_names(fn)
+    if "name" not in params:
+        consts = [v.value for v in astq.assigned_values(fn, "name") if isinstance(v, ast.Constant) and isinstance(v.value, str)]
+        name = consts[0] if len(consts) == 1 else name
+    if not {"split", "return_X_y"} <= set(params):
+        ctx.undecided("R3", entry, "loader has no split / return_X_y parameters", loc)
+        return
     tr_text, tr_rows, tr_labs = abstract_ts("tr", 2)
     te_text, te_rows, te_labs = abstract_ts("te", 3)
-    files = {name + "_TRAIN.ts": tr_text, name + "_TEST.ts": te_text}
+    files = _SplitFiles(tr_text, te_text)
     results = {}
     for split in (None, "train", "test"):
         for rxy in (True, False):
-            tag = "_load_dataset[split=%s,return_X_y=%s]" % (split, rxy)
+            tag = "%s[split=%s,return_X_y=%s]" % (entry, split, rxy)
             vfs = M.VFS(by_basename=files)
             it = Interp(repo, M.make_externals(vfs, listing=[name]), M.to_float, M.str_hook, set_reverse=set_reverse)
             try:
-                results[(split, rxy)] = it.call_function(mod, fn, [name, split, rxy])
+                kw = {"split": split, "return_X_y": rxy}
+                if "name" in params:
+                    kw["name"] = name
+                results[(split, rxy)] = it.call_entry(mod, fn, [], kw)
                 results[(split, rxy, "opened")] = [p.rsplit("/", 1)[-1] for p, m in vfs.opened]
             except Undecided as e:
                 ctx.undecided("R3", tag, str(e), loc)
@@ -351,10 +388,11 @@ def _rule_loader(ctx, repo, set_reverse):
         r = results.get((split, True))
         if (split, True) not in results:
             continue
-        tag = "_load_dataset[split=%s]" % split
+        tag = "%s[split=%s]" % (entry, split)
         wX, wy = want[split]
         if not (isinstance(r, tuple) and len(r) == 2 and isinstance(r[0], M.FrameV) and hasattr(r[1], "data")):
-            ctx.undecided("R3", tag + ":X_y", "unexpected return value %s" % _short(r), loc)
+            ctx.check(False if isinstance(r, M.FrameV) else None, "R3", tag + ":X_y", "",
+                      "with return_X_y=True the loader returns %s instead of (X, y)" % _short(r), loc)
             continue
         X, y = r
         rows = X.cols.get("dim_0")
@@ -373,7 +411,7 @@ def _rule_loader(ctx, repo, set_reverse):
                       "the single-frame form is not the X of return_X_y=True plus its y as one column: %s" % _short(r2), loc)
     op = results.get((None, True, "opened"))
     if op is not None:
-        ctx.check(op == [name + "_TRAIN.ts", name + "_TEST.ts"], "R3", "_load_dataset[split=None]:files",
+        ctx.check(op == [name + "_TRAIN.ts", name + "_TEST.ts"], "R3", "%s[split=None]:files" % entry,
                   "reads <name>_TRAIN.ts then <name>_TEST.ts", "files read: %s" % op, loc)
 
 
@@ -403,7 +441,7 @@ def rule_parsers(ctx, repo):
             it = Interp(repo, M.make_externals(vfs), M.to_float, M.str_hook)
             c = "%s[%s]" % (fname, "X_y" if sep else "single-frame")
             try:
-                parsed[(fname, sep)] = it.call_function(mod, fn, [path], {} if sep else {"return_separate_X_and_y": False})
+                parsed[(fname, sep)] = it.call_entry(mod, fn, [path], {} if sep else {"return_separate_X_and_y": False})
             except Undecided as e:
                 ctx.undecided("R4", c, str(e), ctx.loc(mod, fn))
             except PyRaise as e:
@@ -480,7 +518,7 @@ def rule_parsers_multivariate(ctx, repo):
         c = fname + ":multivariate"
         vfs = M.VFS(by_basename=files)
         try:
-            r = Interp(repo, M.make_externals(vfs), M.to_float, M.str_hook).call_function(mod, fn, [path])
+            r = Interp(repo, M.make_externals(vfs), M.to_float, M.str_hook).call_entry(mod, fn, [path])
         except Undecided as e:
             ctx.undecided("R4", c, str(e), loc)
             continue
@@ -515,6 +553,8 @@ def rule_stateless(ctx, repo):
             last = name.split(".")[-1]
             if name in MEMO_DECORATORS or last in ("lru_cache", "cache", "memoize", "memoized", "cached"):
                 bad.append(name)
+            elif sym is not None and sym.kind == "func":
+                pass  # repo-local decorator: interpreted together with the function by R1-R4 (its effect on the result is judged there)
             else:
                 unknown.append(name)
         # module-level containers that the function fills
@@ -530,6 +570,23 @@ def rule_stateless(ctx, repo):
             if sym is not None and sym.kind == "const" and (isinstance(sym.target, (ast.Dict, ast.List, ast.Set)) or (
                     isinstance(sym.target, ast.Call) and astq.call_name(sym.target) in ("dict", "list", "set", "OrderedDict", "defaultdict"))):
                 bad.append("module-level container %s" % tgt)
+        # callees reached through a module-level re-binding that wraps them (``f = lru_cache(...)(f)``)
+        for call in astq.calls(fn):
+            if not isinstance(call.func, ast.Name):
+                continue
+            bound = mod.defs.get(call.func.id)
+            if not isinstance(bound, ast.Call):
+                continue
+            wrapped = [a for a in bound.args if isinstance(a, ast.Name)]
+            w = bound.func.func if isinstance(bound.func, ast.Call) else bound.func
+            sym = repo.resolve_expr(mod, w)
+            name = sym.dotted if sym is not None else astq.canon(w)
+            if not wrapped:
+                continue
+            if name in MEMO_DECORATORS or name.split(".")[-1] in ("lru_cache", "cache", "memoize", "memoized", "cached"):
+                bad.append("%s is called through the module-level binding %s = %s(...)(%s)" % (call.func.id, call.func.id, name, wrapped[0].id))
+            else:
+                unknown.append("%s is re-bound at module level through %s" % (call.func.id, name))
         if any(isinstance(n, ast.Global) for n in astq.walk_no_nested(fn)):
             unknown.append("global statement")
         if bad:
@@ -566,5 +623,5 @@ def run(ctx):
     rule_stateless(ctx, repo)
     ctx.floor("R1", 13)
     ctx.floor("R2", 48)
-    ctx.floor("R3", 20)
+    ctx.floor("R3", 90)
     ctx.floor("R4", 14)
